@@ -728,3 +728,58 @@ Proof.
   destruct (field_key quirks_none h f u); [|congruence].
   destruct (hash_key_on quirks_none h hfs u); [|congruence]. split; [reflexivity|discriminate].
 Qed.
+
+(* ================= transport by state; the name server store as a map ================= *)
+Theorem state_roundtrip u : of_state (to_state u) = Some u.
+Proof. destruct u as [p o L]. destruct L; reflexivity. Qed.
+
+Lemma st_get_del s k : st_get (st_del s k) k = None.
+Proof.
+  induction s as [|[k' v] s IH]; [reflexivity|]. cbn [st_del]. destruct (text_eqb k k') eqn:E; [exact IH|].
+  cbn [st_get]. rewrite E. exact IH.
+Qed.
+Lemma st_get_del_other s k k' : k' <> k -> st_get (st_del s k) k' = st_get s k'.
+Proof.
+  intros N. induction s as [|[k2 v] s IH]; [reflexivity|]. cbn [st_del st_get].
+  destruct (text_eqb k k2) eqn:E.
+  - apply text_eqb_eq in E. subst k2. destruct (text_eqb k' k) eqn:E2; [apply text_eqb_eq in E2; congruence|exact IH].
+  - cbn [st_get]. rewrite IH. reflexivity.
+Qed.
+(* set k v; get k = v — also when k was present (overwrite) *)
+Theorem st_get_set s k v : st_get (st_set s k v) k = Some v.
+Proof. unfold st_set. cbn [st_get]. replace (text_eqb k k) with true by (symmetry; apply text_eqb_eq; reflexivity). reflexivity. Qed.
+Theorem st_get_set_other s k v k' : k' <> k -> st_get (st_set s k v) k' = st_get s k'.
+Proof.
+  intros N. unfold st_set. cbn [st_get]. destruct (text_eqb k' k) eqn:E; [apply text_eqb_eq in E; congruence|].
+  apply st_get_del_other. exact N.
+Qed.
+(* exactly one entry per name after a set: the overwritten text is gone from listings too *)
+Theorem st_set_single s k v : forall w, In (k, w) (st_set s k v) -> w = v.
+Proof.
+  intros w [H|H]; [congruence|]. exfalso.
+  assert (G : forall s, In (k, w) (st_del s k) -> False).
+  { clear. induction s as [|[k' v'] s IH]; [intros []|]. cbn [st_del]. destruct (text_eqb k k') eqn:E; [exact IH|].
+    intros [X|X]; [|auto]. injection X as -> _. rewrite (proj2 (text_eqb_eq k k) eq_refl) in E. discriminate. }
+  eapply G. exact H.
+Qed.
+
+(* registering an accepted text (as a string, checked, or as the text form of a URI object, unchecked) and looking the
+   name up gives the URI that text denotes — in any store, whether or not the name was registered before *)
+Theorem store_lookup_string T ns s u st name tagged validate : parse T ns s = Some u ->
+  ns_step T ns st (SReg name s tagged validate) = (st_set st name (s, tagged), ORegOk) /\
+  snd (ns_step T ns (st_set st name (s, tagged)) (SLookup name)) = OLookup (Some u).
+Proof.
+  intros P. split; cbn [ns_step].
+  - rewrite P. rewrite andb_false_r. reflexivity.
+  - rewrite st_get_set. cbn [snd]. rewrite P. reflexivity.
+Qed.
+
+(* registering a URI object (its text form is stored) and looking it up gives that URI back *)
+Theorem store_lookup_registered T (TOK : tables_ok T = true) ns s u : (0 <= ns)%Z -> parse T ns s = Some u -> regular u ->
+  forall u', reordering u u' -> forall st name tagged,
+  ns_step T ns st (SReg name (print quirks_none u') tagged false) = (st_set st name (print quirks_none u', tagged), ORegOk) /\
+  snd (ns_step T ns (st_set st name (print quirks_none u', tagged)) (SLookup name)) = OLookup (Some u').
+Proof.
+  intros Hns P R u' RE st name tagged. destruct (reparse T TOK ns s u Hns P R u' RE) as [E _].
+  apply store_lookup_string. exact E.
+Qed.
